@@ -24,7 +24,7 @@ if os.environ.get("VERIF_C07_MODEL") == "deviant":  # experimentation only
     CODE_CONSTS = DEVIANT
 
 
-ALL_SYMS = list(range(1, 21))
+ALL_SYMS = list(range(1, 22))
 BOOK_SYMS_QUICK = [1, 5, 12, 13, 14, 15]          # two atoms of different residues, TER, END, MODEL, ENDMDL
 BOOK_SYMS_THOROUGH = [1, 4, 5, 8, 12, 13, 14, 15]  # + insertion-code residue, water
 
@@ -71,7 +71,10 @@ def render(alphabet, syms):
             out.append("END\n")
         elif k == "model":
             nmodel += 1
-            out.append(f"MODEL     {nmodel:4d}\n")
+            if a.get("fmt") == "bare":
+                out.append("MODEL\n" if i % 2 else f"MODEL {nmodel}\n")      # serial missing / outside its columns
+            else:
+                out.append(f"MODEL     {nmodel:4d}\n")
         elif k == "endmdl":
             out.append("ENDMDL\n")
         elif k == "blank":
@@ -351,7 +354,7 @@ def explore(ctx, rng, symset, maxlen, label):
 def run(ctx):
     rng = random.Random(ctx.seed)
     maxlen = 4 if ctx.quick else 5
-    ctx.rule = ("TLC enumerates every file of <= MaxLen lines over the 20-symbol alphabet of MC_PdbReader x "
+    ctx.rule = ("TLC enumerates every file of <= MaxLen lines over the 21-symbol alphabet of MC_PdbReader x "
                 "{drop-water on, off}; each is rendered to PDB text and read by the real get_molecule/"
                 "drop_water/setup_molecule.  Non-trivial = well-formed file with at least one coordinate line "
                 "and at least one non-coordinate line or duplicate/alternate/insertion/blank-chain atom; "
